@@ -6,7 +6,8 @@ Open Scope N_scope.
 
 (* ================= source objects ================= *)
 Record gen := mkGen { g_fd : N; g_int : interest; g_mode : mode; g_tok : option tok; g_poller : bool }.
-Record timer := mkTimer { tm_reg : option (tok * N); tm_dl : option Z }.
+(* tm_en: registered to (enabled in) a loop, whether or not a deadline is armed *)
+Record timer := mkTimer { tm_reg : option (tok * N); tm_dl : option Z; tm_en : bool }.
 Inductive src :=
 | SComp (lc : bool) (own : option tok) (subs : list gen)   (* harness composite over Generic<eventfd> sub-sources *)
 | SPing (g : gen)                                          (* PingSource *)
@@ -24,7 +25,7 @@ Record chan := mkChan { ch_q : list Z; ch_senders : N; ch_bound : option N; ch_r
 Inductive tline := L (tag : N) (args : list Z).
 Definition T_OP := 1. Definition T_CB := 2. Definition T_BS := 3. Definition T_BH := 4. Definition T_IDLE := 5.
 Definition T_DISP := 6. Definition T_BATCH := 7. Definition T_STATS := 8. Definition T_EP := 9. Definition T_PANIC := 10.
-Definition T_REGOP := 16. Definition T_BHEV := 11. Definition T_SLOT := 12. Definition T_LIFE := 13. Definition T_WHEEL := 14. Definition T_DROP := 15.
+Definition T_REGOP := 16. Definition T_CMD := 17. Definition T_BHEV := 11. Definition T_SLOT := 12. Definition T_LIFE := 13. Definition T_WHEEL := 14. Definition T_DROP := 15.
 
 (* results of operations *)
 Inductive res := ROk | RInvalid | RIo | ROther.
@@ -183,19 +184,21 @@ Fixpoint subs_unregister (e : env) (subs : list gen) : bool * list gen * env :=
 (* ================= EventSource::{register,reregister,unregister} per kind ================= *)
 Definition timer_unregister (e : env) (t : timer) : timer * env :=
   match tm_reg t with
-  | Some (_, c) => (mkTimer None (tm_dl t), set_whl e (wh_cancel (whl e) c))
-  | None => (t, e)
+  | Some (_, c) => (mkTimer None (tm_dl t) false, set_whl e (wh_cancel (whl e) c))
+  | None => (mkTimer None (tm_dl t) false, e)
   end.
-Definition timer_register (e : env) (t : timer) (f : factory) : rr * timer * env :=
+(* register first cancels a previous arming (enable() of an enabled timer re-arms it) *)
+Definition timer_register (e0 : env) (t0 : timer) (f : factory) : rr * timer * env :=
+  let (t, e) := timer_unregister e0 t0 in
   match tm_dl t with
   | Some dl =>
       match ftoken f with
       | None => (RRPanic, t, e)
       | Some (tk, _) =>
           let (w', c) := wh_insert (whl e) dl tk in
-          (RROk, mkTimer (Some (tk, c)) (tm_dl t), set_whl e w')
+          (RROk, mkTimer (Some (tk, c)) (tm_dl t) true, set_whl e w')
       end
-  | None => (RROk, t, e)
+  | None => (RROk, mkTimer None None true, e)
   end.
 
 Definition one_gen (r : bool * gen * env) (k : gen -> src) : rr * src * env :=
@@ -221,8 +224,10 @@ Definition src_reregister (e : env) (x : src) (f : factory) : rr * src * env :=
       end
   | SPing g => match ftoken f with None => (RRPanic, x, e) | Some (t, _) => one_gen (gen_reregister e g t) SPing end
   | SChan c g => match ftoken f with None => (RRPanic, x, e) | Some (t, _) => one_gen (gen_reregister e g t) (SChan c) end
-  | STimer t => let (t1, e1) := timer_unregister e t in
-                let '(r, t', e') := timer_register e1 t1 f in (r, STimer t', e')
+  | STimer t => if tm_en t
+                then let (t1, e1) := timer_unregister e t in
+                     let '(r, t', e') := timer_register e1 t1 f in (r, STimer t', e')
+                else (RROk, x, e)
   end.
 Definition src_unregister (e : env) (x : src) : bool * src * env :=
   match x with
@@ -375,7 +380,7 @@ Definition do_insert (s : st) (h : N) (x : src) : st :=
           let (r, s2) := disp_register s1 h t in
           if halted s2 then s2 else
           match r with
-          | ROk => emit (set_toks s2 (fupd (toks s2) h (Some t))) (op_line OP_INSERT h ROk)
+          | ROk => emit (set_toks s2 (fupd (toks s2) h (Some t))) (L T_OP [OP_INSERT; zN h; res_code ROk; zN (pack t)])
           | _ => emit (set_slots s2 (upd (slots s2) i (mkSlot t None (s_gen e)))) (op_line OP_INSERT h r)
           end
       end
@@ -452,7 +457,7 @@ Definition do_setdl (s : st) (h : N) (dl : Z) : st :=
       if negb (o_ext ob) then emit s (op_line OP_SETDL h RInvalid) else
       if is_running s h then panic s P_BORROW else
       match o_src ob with
-      | STimer t => emit (set_obj_src s h (STimer (mkTimer (tm_reg t) (Some dl)))) (op_line OP_SETDL h ROk)
+      | STimer t => emit (set_obj_src s h (STimer (mkTimer (tm_reg t) (Some dl) (tm_en t)))) (op_line OP_SETDL h ROk)
       | _ => emit s (op_line OP_SETDL h ROther)
       end
   | None => emit s (op_line OP_SETDL h RInvalid)
@@ -657,8 +662,8 @@ Definition obj_process (scr : scripts) (s : st) (o : N) (ev : pevent) : st * opt
                 match sc_ret sc with
                 | 0 => (s1, Some Remove)                                    (* TimeoutAction::Drop *)
                 | 1 => (set_obj_src (eenv s1 (fun e => set_whl e (wh_insert_reuse (whl e) c (sc_arg sc) tk))) o
-                                    (STimer (mkTimer (Some (tk, c)) (Some (sc_arg sc)))), Some Continue)   (* ToInstant *)
-                | _ => (set_obj_src s1 o (STimer (mkTimer (Some (tk, c)) None)), Some Remove)  (* ToDuration(MAX) *)
+                                    (STimer (mkTimer (Some (tk, c)) (Some (sc_arg sc)) (tm_en tm))), Some Continue)   (* ToInstant *)
+                | _ => (set_obj_src s1 o (STimer (mkTimer (Some (tk, c)) None (tm_en tm))), Some Remove)  (* ToDuration(MAX) *)
                 end
               else (s, Some Continue)
           | _, _ => (s, Some Continue)
@@ -721,18 +726,15 @@ Definition process_event (scr : scripts) (s : st) (ev : pevent) : st * bool :=
           let s3 := set_running s2 None in
           let p := pending s3 in
           let s4 := set_pending s3 Continue in
-          match ret with
-          | None => (end_processing s4 o, false)
-          | Some r =>
-              let r' := match r with Continue => p | _ => r end in
-              let '(ok, s5) := apply_post s4 o reg r' in
-              if halted s5 then (s5, false) else
-              if negb ok then (end_processing s5 o, false)
-              else
-                let s6 := if slot_vacant_for s5 reg
-                          then let '(_, _, sx) := disp_unregister s5 o reg in sx else s5 in
-                (end_processing s6 o, true)
-          end
+          (* the error of process_events / of the post action is returned after the removal check *)
+          let '(ok, s5) := match ret with
+                           | None => (false, s4)
+                           | Some r => apply_post s4 o reg (match r with Continue => p | _ => r end)
+                           end in
+          if halted s5 then (s5, false) else
+          let s6 := if slot_vacant_for s5 reg
+                    then let '(_, _, sx) := disp_unregister s5 o reg in sx else s5 in
+          (end_processing s6 o, ok)
       end
   end.
 
@@ -867,6 +869,7 @@ Definition emits (s : st) (l : list tline) : st := fold_left emit l s.
 
 Definition exec_cmd (scr : scripts) (bscr : bscripts) (s : st) (c : cmd) : st :=
   if halted s then s else
+  let s := emit s (L T_CMD []) in
   match c with
   | CAct a => exec_action s a
   | CDispatch t order => dispatch scr bscr s t order
